@@ -338,9 +338,10 @@ class Attack:
                 with_c = [a for a in terms if anyfree[a] and inner_containers(N, getattr(inst, a, None))]
                 an = rng.choice(with_c) if with_c else an
             if kind in ("setattr", "setattr-new", "delattr"):
-                target = an if kind != "setattr-new" else "hv_new_attribute"
+                # names that are not declared: public, private (one leading underscore), name-mangled (`self.__x` inside a method)
+                target = an if kind != "setattr-new" else rng.choice(["hv_new_attribute", "_hv_private", "_cache", f"_{type(inst).__name__}__mangled"])
                 if kind == "delattr" and rng.random() < 0.3:
-                    target = "hv_absent"
+                    target = rng.choice(["hv_absent", "_hv_private"])
                 try:
                     if kind == "delattr":
                         delattr(inst, target)
